@@ -6,7 +6,7 @@ transition by transition with exact rational weights, is evaluated exactly; the 
 are the Green-Kubo/variational values of that chain (coeff_diag_eq_Qmin), reciprocal (formOf_symm), independent of the
 solution of the singular rate equation (formOf_indep), and `dyson_identity` is the algebraic step of the Dyson update.
 Tie / oracle: (A) the float chain solver of harness/oracle_chain.py is validated against the exact Lean evaluation at
-small n; (B) VacancyMediated.Lij is compared with the n -> infinity extrapolation of that chain (three sizes) at
+small n; (B) VacancyMediated.Lij is compared with the n -> infinity extrapolation of that chain (four sizes) at
 tolerance 3*extrapolation error + the calculator's own Brillouin-zone accuracy 5*|L(NGFmax=4) - L(NGFmax=6)|.
 The Dyson/vector-star algorithm itself is not modelled (partial).
 """
@@ -26,7 +26,7 @@ META = dict(
     level_text='Partial. Kernel-checked: for every finite reversible chain with two displacement fields (in particular the periodic '
                'one-solute/one-vacancy chain of any size and any data) the exact model returns the Green-Kubo/variational coefficients, '
                'they are reciprocal, gauge-independent and the diagonal ones non-negative; plus the matrix identity behind the Dyson '
-               'update. NOT proved: the infinite-dilution limit (extrapolated numerically from three supercell sizes) and the '
+               'update. NOT proved: the infinite-dilution limit (extrapolated numerically from four supercell sizes with a consistency error estimate) and the '
                'vector-star/Green-function algorithm of Lij, which is compared with that oracle on generated crystals and data.',
     level_note='Trusted: Lean kernel + standard axioms; harness/oracle_chain.py (chain construction from the calculator\'s own '
                'classification of transitions, validated against the exact model at small n; extrapolation in 1/n^d, 1/n^(d+2)); '
